@@ -1,4 +1,5 @@
 #include <limits>
+#include <cmath>
 #include <symengine/printers/strprinter.h>
 
 namespace SymEngine
@@ -209,6 +210,11 @@ void StrPrinter::bvisit(const Complex &x)
 
 std::string print_double(double d)
 {
+    // infinities and NaN print as inf / nan (not inf.0 / nan.0)
+    if (std::isinf(d))
+        return d < 0 ? "-inf" : "inf";
+    if (std::isnan(d))
+        return "nan";
     std::ostringstream s;
     s.precision(std::numeric_limits<double>::digits10);
     s << d;
